@@ -6,6 +6,8 @@ def main():
     run = Run("C01")
     cfgs = ["MC_BigWig_t1.cfg", "MC_BigWig_t2.cfg", "MC_BigWig_q3.cfg"] if run.thorough else ["MC_BigWig_q1.cfg", "MC_BigWig_q2.cfg", "MC_BigWig_q3.cfg"]
     beh = emit(run, "MC_BigWig", cfgs)
+    # deeper layouts by random walks: 5..8 items over two chromosomes, one or two per block, fan-out 2 => 3- and 4-level indexes
+    beh += emit_sim(run, "MC_BigWig", "MC_BigWig_deep.cfg", 3000 if run.thorough else 300)
     sizes = lambda b: [b["L"]] * b["NC"]
     cases = make_cases(beh, "bw", sizes, run)
     # bit identity: the same layouts with the value tokens mapped to -0.0, subnormals, f32::MAX, 0.1 ...
